@@ -38,7 +38,7 @@ TIERS = {
 }
 SPELLINGS = {'quick': ['min', 'spaced', 'lines'], 'thorough': ['min', 'spaced', 'lines']}
 
-DOC_XML = '<?xml version="1.0"?><!--c--><?pt x?><a xmlns:p="urn:p" x="1" xml:lang="en" xml:id="a1">t<b/></a>'
+DOC_XML = '<?xml version="1.0"?><!--c--><?pt x?><a xmlns:p="urn:p" x="1" xml:lang="en" xml:id="a1">t<b><b y="2"/></b></a>'
 DOC_URI = 'http://example.com/docs/doc.xml'
 N_VARIANTS = {'quick': 4, 'thorough': 6}      # concrete renderings per abstract atomic argument (signature conformance)
 PREFIXES = {
@@ -270,7 +270,8 @@ LEX = {
     'hexBinary': ['0fb7', '', 'FF'], 'base64Binary': ['YWJj', '', 'YQ=='],
     'anyURI': ['http://example.com/a', '', 'b/c#d', 'urn:p'], 'QName': ['xs:a', 'a', 'fn:b'],
 }
-NATIVE = {'string': ["'a'", "''", "'b c'", "'en'", "'a1'", "'2001-02-03'"], 'integer': ['1', '-3', '0', '2', '65'],
+NATIVE = {'string': ["'a'", "''", "'b c'", "'en'", "'a1'", "'2001-02-03'"],
+          'integer': ['1', '-3', '0', '99999999999999999999', '2', '65'],
           'decimal': ['1.5', '-2.5', '0.0', '100.25'],
           'double': ['1.5e0', '-2.5e0', '0e0', "xs:double('INF')", "xs:double('NaN')", "xs:double('-0')"],
           'boolean': ['true()', 'false()']}
@@ -286,6 +287,9 @@ FN_TEXT = {
 }
 
 
+NODE_VARIANTS = {('element', 'b'): ['$d/a/b', '$d/a/b/b']}    # child of the root element, deep descendant
+
+
 def item_text(x, nth: int = 0) -> str:
     k = x['k']
     if k == 'atom':
@@ -295,7 +299,10 @@ def item_text(x, nth: int = 0) -> str:
         lex = LEX[t]
         return f"xs:{t}('{lex[nth % len(lex)]}')"
     if k == 'node':
-        return NODE_PATH[(x['nk'], x['name'])]
+        key = (x['nk'], x['name'])
+        if key in NODE_VARIANTS and nth:
+            return NODE_VARIANTS[key][nth % len(NODE_VARIANTS[key])]
+        return NODE_PATH[key]
     if k == 'fn':
         sig = 'function(' + ', '.join(type_text(p) for p in x['ps']) + ') as ' + type_text(x['r'])
         return FN_TEXT[sig]
@@ -693,11 +700,18 @@ ArgsFor(p) == {v \\in 1..NV : p \\in MatchRow[v]}
 SetMin(S) == CHOOSE x \\in S : \\A y \\in S : x <= y
 SetMax(S) == CHOOSE x \\in S : \\A y \\in S : x >= y
 Median(S) == CHOOSE x \\in S : Cardinality({y \\in S : y < x}) = Cardinality(S) \\div 2
+(* the representative whose type is exactly the parameter's atomic type (for xs:anyAtomicType the
+   xs:string one): the concrete special-case literals of the binding table are variants of it *)
+Exact(p) == LET it == TypeSeq[p].it IN
+            IF it.k # "atomic" THEN {}
+            ELSE {v \\in ArgsFor(p) : ValueSeq[v] = <<Atom(IF it.n = "anyAtomicType" THEN "string" ELSE it.n)>>}
+NodeParam(p) == TypeSeq[p].it.k \\in (NodeKinds \\cup {"node"})
 ArgPick(p, n) == LET c == ArgsFor(p) IN
                  IF c = {} THEN {}
                  ELSE IF n = 1 THEN c                               \\* unary functions: every matching value
-                 ELSE IF n = 2 \\/ PickK = 3 THEN {SetMin(c), Median(c), SetMax(c)}
-                 ELSE {Median(c), SetMax(c)}
+                 ELSE IF n = 2 /\\ NodeParam(p) THEN c              \\* every node kind (and the empty sequence)
+                 ELSE IF n = 2 \\/ PickK = 3 THEN {SetMin(c), Median(c), SetMax(c)} \\cup Exact(p)
+                 ELSE {Median(c), SetMax(c)} \\cup Exact(p)
 RECURSIVE ArgTuples(_, _)
 ArgTuples(ps, n) == IF Len(ps) = 0 THEN {<<>>}
                     ELSE {<<a>> \\o rest : a \\in ArgPick(Head(ps), n), rest \\in ArgTuples(Tail(ps), n)}
@@ -860,6 +874,95 @@ def run_calls(job):
             else:
                 out.append((si, args, mode, expr, ':'.join(r), None, '', argtexts))
     return out
+
+
+# Special-case argument literals (variants of the abstract xs:string / xs:anyURI / xs:QName singleton).
+# The F&O text singles out particular names and literals whose branches return differently built
+# values; the generic list below is completed, per function, by the short string literals that the
+# implementation of THAT function compares its arguments with (harvested from its source code).
+STRING_SPECIALS = [
+    '', ' ', ' \t\n', 'xml', 'xmlns', 'p', 'undeclared', 'xs', 'fn',
+    'http://www.w3.org/XML/1998/namespace', 'http://www.w3.org/2001/XMLSchema',
+    'http://www.w3.org/2005/xpath-functions', 'urn:p', DOC_URI,
+    'en', 'EN-us', 'NFC', 'nfc', 'NFKD', 'FULLY-NORMALIZED', 'unknown',
+    'http://www.w3.org/2005/xpath-functions/collation/codepoint',
+    'http://www.w3.org/2005/xpath-functions/collation/html-ascii-case-insensitive', 'http://example.com/unknown-collation',
+    'utf-8', 'UTF-16', 'x-unknown', 'i', 'x', 'q', 'smix', '[Y0001]-[M01]-[D01]', '[H01]:[m01]', '#,##0.00', '1', 'Ww', 'a1',
+    'a b', '(a)(b)?', '$1', '\\', 'xml:lang', 'xs:integer', 'json', '{"a":1}', '<a/>',
+]
+URI_SPECIALS = ['http://www.w3.org/XML/1998/namespace', 'http://www.w3.org/2001/XMLSchema',
+                'http://www.w3.org/2005/xpath-functions', 'urn:p', '', 'b/c#d']
+QNAME_SPECIALS = ['xml:lang', 'xs:integer', 'fn:abs', 'local']
+
+
+def xpath_string(lit: str) -> str:
+    return "'" + lit.replace("'", "''") + "'"
+
+
+_harvest_cache: dict = {}
+
+
+def harvest_literals(ver: str, name: str, arity: int) -> list[str]:
+    """short string literals the implementation of the function compares values with
+    (== / != / in / not in / startswith / endswith / match-case), by inspect.getsource + ast"""
+    key = (ver, name)
+    if key in _harvest_cache:
+        return _harvest_cache[key]
+    import ast
+    import inspect
+    import textwrap
+    e = env()
+    found: list[str] = []
+    try:
+        fn = e.parsers[ver]().get_function(name, arity)
+        cls = type(fn)
+    except Exception:  # noqa
+        _harvest_cache[key] = found
+        return found
+
+    def consts(node):
+        for sub in ast.walk(node):
+            if isinstance(sub, ast.Constant) and isinstance(sub.value, str) and len(sub.value) <= 40:
+                if sub.value not in found:
+                    found.append(sub.value)
+
+    for attr in ('evaluate', 'select'):
+        meth = cls.__dict__.get(attr)
+        if meth is None:
+            continue
+        try:
+            tree = ast.parse(textwrap.dedent(inspect.getsource(meth)))
+        except (OSError, TypeError, SyntaxError):
+            continue
+        for node in ast.walk(tree):
+            if isinstance(node, ast.Compare):
+                consts(node)
+            elif isinstance(node, ast.Call) and isinstance(node.func, ast.Attribute) and \
+                    node.func.attr in ('startswith', 'endswith', 'get', 'count', 'find'):
+                for a in node.args:
+                    consts(a)
+            elif isinstance(node, ast.match_case):
+                consts(node.pattern)
+    _harvest_cache[key] = found
+    return found
+
+
+def special_variants(sig: dict, abstract_value) -> list[str]:
+    """extra concrete renderings of an abstract singleton argument for one function"""
+    if len(abstract_value) != 1 or abstract_value[0]['k'] != 'atom':
+        return []
+    t = abstract_value[0]['t']
+    if t == 'string':
+        lits = list(STRING_SPECIALS)
+        for h in harvest_literals(sig['ver'], sig['name'], sig['arity']):
+            if h not in lits:
+                lits.append(h)
+        return [xpath_string(x) for x in lits]
+    if t == 'anyURI':
+        return [f'xs:anyURI({xpath_string(x)})' for x in URI_SPECIALS]
+    if t == 'QName':
+        return [f'xs:QName({xpath_string(x)})' for x in QNAME_SPECIALS]
+    return []
 
 
 def result_kind(pv) -> str:
@@ -1218,6 +1321,7 @@ def run(chk: core.Check) -> None:
     plan = sorted(printed(r2.output, 'callplan')[0])
     nvar = N_VARIANTS[tier]
     calls, seen_calls = [], set()
+    n_special = 0
     values_by_idx = values
     for si, args in plan:
         for k in range(nvar):
@@ -1227,6 +1331,16 @@ def run(chk: core.Check) -> None:
                 continue
             seen_calls.add((si, argtexts))
             calls.append((si, sigs[si - 1], args, list(argtexts)))
+        # special-case literals: one argument position at a time, the others at their first variant
+        base = [value_text(values_by_idx[a - 1], n) for n, a in enumerate(args)]
+        for pos, a in enumerate(args):
+            for lit in special_variants(sigs[si - 1], values_by_idx[a - 1]):
+                argtexts = tuple(base[:pos] + [lit] + base[pos + 1:])
+                if (si, argtexts) in seen_calls:
+                    continue
+                seen_calls.add((si, argtexts))
+                calls.append((si, sigs[si - 1], args, list(argtexts)))
+                n_special += 1
     res = []
     for ch in core.pool_map(run_calls, [(text2idx, types, c) for c in core.chunked(calls, 4 * procs)], procs=procs):
         res += ch
@@ -1262,6 +1376,8 @@ def run(chk: core.Check) -> None:
                 chk.note(f'call {expr} ({sig["ver"]}) with {case["argtexts"]}: {outcome}')
     chk.coverage['call_outcomes'] = outcomes
     never = sorted(f'{n}#{a} ({v})' for (v, n, a), c in ok_calls.items() if c == 0)
+    chk.coverage['special_literal_calls'] = n_special
+    chk.coverage['harvested_literals'] = {f'{k[1]} ({k[0]})': v for k, v in sorted(_harvest_cache.items()) if v}
     chk.coverage['functions_called'] = len(ok_calls)
     chk.coverage['functions_with_successful_call'] = len(ok_calls) - len(never)
     chk.coverage['functions_without_successful_call'] = never
